@@ -133,7 +133,10 @@ CLAIMED["C07"] = {
             "the real code; one (failed Trim transaction, link.go Start) is reachable only under a surviving kvdb write "
             "error, low impact (robustness note, not a C07 violation). Switch-level settle/fail plumbing is C08's.",
     "technique": "Coq proof (invariants over phase-interleaved runs, exact restart refinement, discipline invariant) + "
-                 "deterministic-schedule differential correspondence + refuted-witness replay",
+                 "deterministic-schedule differential correspondence + refuted-witness replay + switch stage (three-hop "
+                 "fixture with directed disconnect-in-batch and bounce scenarios, random fault batches and closing "
+                 "restarts; at-most-once hand-over / no forward after a response / one response per run evaluated on "
+                 "the forwarder's trace; harness and predicate shared with C08)",
 }
 CLAIMED["C14"] = {
     "design_ref": "DESIGN.md §4 C14, notes/C14.md",
@@ -227,7 +230,9 @@ CLAIMED["C08"] = {
             "outgoing HTLC, stable forwarding-package references) and on the quiescent end state of all four channel "
             "ends (balances, fees, circuits, invoices). Two genuine defects found by this check were repaired in /repo "
             "(C08-F1 f141912 forwarding-package index on replay; C08-F2 c1f1bbb packets abandoned at link stop).",
-    "note": "Goroutine schedules and fault points are sampled, not enumerated; restarts are graceful stops, not "
+    "note": "Every run contains four directed disconnect/bounce/replay scenarios and every batch is closed by "
+            "restarting every link and the forwarder's switch and re-checking the quiescent state. "
+            "Goroutine schedules and fault points are sampled, not enumerated; restarts are graceful stops, not "
             "crashes inside a handler; onion processing, mailbox timers, transport and the commitment dance are exercised "
             "by the harness only. The fixture keeps one database per channel end. Trusted: Coq kernel, harness, python predicate.",
     "technique": "Coq proof (per-circuit and ledger invariants over all event sequences) + trace recogniser on the real "
